@@ -23,7 +23,7 @@ PATHS = ["/verif-fake/a", "/verif-fake/b", "/verif-fake/c", "/verif-fake/d é"]
 
 
 def plan(tier):
-    n = 200 if tier == "quick" else 6000
+    n = 600 if tier == "quick" else 6000
     return [{"kind": "hyp", "n": n} for _ in range(16)]
 
 
